@@ -241,3 +241,14 @@ for _p in ("C03", "C11", "C02", "C18"):
     PROPS[_p]["rule"] += " ; plus " + SEQEDIT_RULE
 ENGINES["seqedit"] = ("apply_all / generic_sequence_update at the text level vs Model/SeqEdit.lean (seqUpdate): the text between the braces token by token; oracle: parses, holds exactly the "
                       "kept and inserted elements, a tuple stays a tuple, kept elements verbatim")
+
+PROPS["C03"]["level_text"] += (" Element edits at the text level (Props/C03b.lean on Model/SeqEdit, every number of elements / deletion pattern / insertion set / trivia): seqUpdate_is_display (the text "
+    "between the braces is a display again and holds exactly the kept and inserted elements in order), seqUpdate_tuple_comma (+ tuple_comma_needs_anchor: the hypothesis is necessary), "
+    "seqUpdate_nothing_to_do, seqUpdate_prefix_kept (elements and trivia in front of the first edit survive verbatim), original_is_display. Props/C03c.lean: align_no_insert_before_delete, "
+    "adapter_inserts_anchored, tuple_edit_keeps_comma (the anchoring hypothesis holds for every script add_x(align(old, new)), any equality relation).")
+PROPS["C18"]["level_text"] += (" Props/C18b.lean on Model/Nest (trees of any depth, any well-formed change set): survivors_ranges_disjoint (after apply_all's filter the replaced intervals and the stretches "
+    "rewritten in every touched container are pairwise disjoint), survivor_not_inside, overlap_without_filter (the defect fixed in 7da8f5b / 9aefa8e). Correspondence: the nested engine wraps the real "
+    "apply_all and compares the changes it goes on with against `survivors`.")
+PROPS["C18"]["assumptions"] = list(PROPS["C18"].get("assumptions", [])) + [
+    "Model/Nest lays a display out as open / gap / (child gap)* / close with one-token gaps; real token widths differ but the nesting and ordering of ranges is what the proof uses",
+    "the stretches of Model/Nest are a superset of the ranges generic_sequence_update really replaces (it skips untouched stretches)"]
